@@ -810,6 +810,7 @@ class C01(Prop):
             "exact": rng.random() < 0.5,
             "const_flags": rng.random() < 0.4,
             "f_order_p": rng.choice([0, 0.3, 0.6]),
+            "leaf_min_ndim": getattr(self, "leaf_min_ndim", 0),
         }
         if cfg["exact"]:
             cfg["dtypes"] = ["f8"]
@@ -961,6 +962,8 @@ class C06(C01):
         "non-trivial when at least one view's gradient was compared with the view of its base's gradient; distinct by (event kind, outcome)"
     )
     expected_probes = ["c06.view_grad_ok", "c06.base_grad_noncontiguous"]
+
+    leaf_min_ndim = 2
 
     def generate(self, rng):
         h = super().generate(rng)
